@@ -3,22 +3,29 @@
    Byte strings are lists of Z; every theorem quantifies over ALL strings (and all schemas / keywords where they occur).
    What is NOT proved is listed in props/C09/meta.json (crash- and hang-freedom of the C++ is exploration only). *)
 From Coq Require Import ZArith List Bool Arith Lia.
-From CV Require Import C09.ParseModel C09.ParseProofs C09.NumProofs C09.LookupProofs C09.FlatProofs C09.ValueProofs C09.ComposedProofs.
+From CV Require Import C09.ParseModel C09.ParseProofs C09.NumProofs C09.LookupProofs C09.FlatProofs C09.ValueProofs C09.OrigProofs C09.NestedProofs C09.ComposedProofs.
 Import ListNotations.
 Local Open Scope Z_scope.
 
 (* ---------------------------------------------------------------- totality *)
 
-(* Full statement wanted: for every byte string the parser returns accept or reject.
-   Proved: the model never exhausts the fuel it gives itself (= every loop of key_lookup, of the repeated lookup,
-   of the value extraction terminates) and so returns PAccept, PReject or PAnomaly; PAnomaly (std::out_of_range
-   from std::string::erase in strip_values, or a registry entry at npos) is not excluded by a theorem: partial. *)
-Theorem C09_model_total_partial : forall strict schema raw, schema_ok schema ->
-  parse_config strict schema raw <> POutOfFuel /\
-  (forall conf, parse_flat strict schema conf <> POutOfFuel) /\
+(* For every byte string the model parser returns accept or reject: no loop of key_lookup, of the repeated lookup,
+   of the value extraction or of the flat client exhausts the fuel the model gives it (fuel = length + 1), and
+   there is no third outcome.  (The pinned strip_values could throw std::out_of_range: C09_pinned_strip_values_refuted;
+   after the repair it is a total function.) *)
+Theorem C09_model_total : forall strict schema raw, schema_ok schema ->
+  ((exists vs, parse_config strict schema raw = PAccept vs) \/ parse_config strict schema raw = PReject) /\
+  (forall conf, (exists vs, parse_flat strict schema conf = PAccept vs) \/ parse_flat strict schema conf = PReject) /\
   (forall conf key sp, key <> [] -> key_lookup (fuel_of conf) conf key sp <> KL_outoffuel).
-Proof. exact model_total_partial. Qed.
-Print Assumptions C09_model_total_partial.
+Proof. exact model_total. Qed.
+Print Assumptions C09_model_total.
+
+(* the pinned strip_values (begin and end positions sorted separately, then paired) throws for nested value ranges
+   with different ends: "k {\n} m 12345x { 12345 } {\n}\n" with the ranges of k's block and of m's value *)
+Theorem C09_pinned_strip_values_refuted :
+  exists conf rs, (forall b e, In (Reg b e) rs -> (b < e <= length conf)%nat) /\ strip_values_pinned conf rs = None.
+Proof. exact strip_values_pinned_refuted. Qed.
+Print Assumptions C09_pinned_strip_values_refuted.
 
 (* the fuel of the value loops is sufficient: any larger fuel gives the same list of values *)
 Theorem C09_value_loop_fuel_suffices : forall f1 f2 l, (length l < f1)%nat -> (length l < f2)%nat ->
@@ -30,21 +37,23 @@ Print Assumptions C09_value_loop_fuel_suffices.
 
 (* ---------------------------------------------------------------- braces *)
 
-(* check_braces accepts exactly the strings with as many '{' as '}' (counter specification), from any start *)
-Theorem C09_check_braces_counts : forall conf start,
-  (check_braces conf start = true <-> balanced (skipn start conf)) /\
-  (check_braces conf O = true <-> balanced conf).
-Proof. exact check_braces_counts. Qed.
-Print Assumptions C09_check_braces_counts.
+(* check_braces (after the repair) accepts exactly the properly nested strings: as many '{' as '}' and no prefix
+   with more '}' than '{' (counter specification), from any start position *)
+Theorem C09_check_braces_nesting : forall conf start,
+  (check_braces conf start = true <-> well_nested (skipn start conf)) /\
+  (check_braces conf O = true <-> well_nested conf).
+Proof. exact check_braces_nesting. Qed.
+Print Assumptions C09_check_braces_nesting.
 
-(* kept visible: the count test does not check nesting ("}{" passes); what happens downstream is decided by the tie *)
-Theorem C09_check_braces_nesting_refuted : exists s, check_braces s O = true /\ ~ well_nested s.
+(* the pinned test only compared the counts ("}{" passed); through the module `smp }` followed by an unclosed
+   `colvar {` block was accepted and the block silently ignored *)
+Theorem C09_pinned_check_braces_refuted : exists s, check_braces_pinned s O = true /\ ~ well_nested s.
 Proof. exact check_braces_nesting_refuted. Qed.
-Print Assumptions C09_check_braces_nesting_refuted.
+Print Assumptions C09_pinned_check_braces_refuted.
 
-(* a configuration whose braces do not balance (after comments are removed) is refused, whatever else it contains *)
+(* a configuration whose braces are not properly nested (after comments are removed) is refused, whatever else it contains *)
 Theorem C09_unbalanced_rejected : forall strict schema raw,
-  ~ balanced (strip_comments raw) -> parse_config strict schema raw = PReject.
+  ~ well_nested (strip_comments raw) -> parse_config strict schema raw = PReject.
 Proof. exact parse_config_unbalanced_rejected. Qed.
 Print Assumptions C09_unbalanced_rejected.
 
@@ -66,11 +75,24 @@ Theorem C09_comments_and_line_ends :
 Proof. exact comments_and_line_ends. Qed.
 Print Assumptions C09_comments_and_line_ends.
 
+(* whole configurations: CRLF for LF, a comment appended to a line, a blank or comment-only line inserted, the
+   final newline -- each leaves the WHOLE result (accept/reject and every value, flat and nested client) unchanged *)
+Theorem C09_whole_configuration_raw_layout :
+  (forall p l q, ends_lf p -> no_lf l -> not_ending_cr l ->
+     same_result (p ++ l ++ CR :: LF :: q) (p ++ l ++ LF :: q)) /\
+  (forall p l c q, ends_lf p -> no_lf l -> no_lf c -> not_ending_cr l ->
+     same_result (p ++ l ++ HASH :: c ++ LF :: q) (p ++ l ++ LF :: q)) /\
+  (forall p w q, ends_lf p -> no_lf w -> all_ws (clean_line w) ->
+     same_result (p ++ w ++ LF :: q) (p ++ q)) /\
+  (forall p l, ends_lf p -> no_lf l -> l <> [] -> same_result (p ++ l) (p ++ l ++ [LF])).
+Proof. exact whole_configuration_raw_layout. Qed.
+Print Assumptions C09_whole_configuration_raw_layout.
+
 (* ---------------------------------------------------------------- key_lookup *)
 
 (* key_lookup says "not found" exactly when no occurrence of the keyword (compared case-insensitively) at or after
    save_pos is (a) preceded on its line by left delimiters only, (b) followed by a right delimiter or by the end of
-   the string and (c) followed by balanced braces; otherwise it works on the FIRST such occurrence.  kw_occurrence
+   the string and (c) followed by properly nested braces; otherwise it works on the FIRST such occurrence.  kw_occurrence
    is the declarative reading of the three tests.  (The pinned code did not test the last character of the string
    and never matched a string equal to the keyword -- found while proving (b), repaired by a fix: commit.) *)
 Theorem C09_key_lookup_found_iff : forall conf key sp, good_key key ->
@@ -80,10 +102,10 @@ Theorem C09_key_lookup_found_iff : forall conf key sp, good_key key ->
 Proof. exact key_lookup_found_iff_decl. Qed.
 Print Assumptions C09_key_lookup_found_iff.
 
-(* "balanced braces after the keyword" is "block depth 0 at the keyword" in a configuration that passed check_braces *)
-Theorem C09_depth_zero : forall conf pos, balanced conf ->
-  (balanced (skipn pos conf) <-> balanced (firstn pos conf)).
-Proof. exact suffix_balanced_iff_prefix. Qed.
+(* "properly nested braces after the keyword" is "block depth 0 at the keyword" in a configuration that passed check_braces *)
+Theorem C09_depth_zero : forall conf pos, well_nested conf ->
+  (well_nested (skipn pos conf) <-> balanced (firstn pos conf)).
+Proof. exact suffix_nested_iff_prefix. Qed.
 Print Assumptions C09_depth_zero.
 
 (* the right-hand test of the pinned code violated (b): in "colvarx" the keyword colvar was right-isolated, and in
@@ -95,7 +117,8 @@ Proof. exact pinned_right_isolation_refuted. Qed.
 Print Assumptions C09_pinned_right_isolation_refuted.
 
 (* letter case: two configurations that differ only in letter case, looked up with keywords that differ only in
-   letter case, give the same keyword position, the same resume position and values equal up to letter case *)
+   letter case, give the same keyword position, the same resume position, the same registered value range and values
+   equal up to letter case *)
 Theorem C09_case_insensitive_lookup : forall fuel c1 c2 k1 k2 sp,
   to_lower c1 = to_lower c2 -> to_lower k1 = to_lower k2 ->
   kl_lower (key_lookup fuel c1 k1 sp) = kl_lower (key_lookup fuel c2 k2 sp).
@@ -126,14 +149,53 @@ Print Assumptions C09_split_string_total.
 (* ---------------------------------------------------------------- unknown keywords *)
 
 (* if a configuration is accepted, every non-blank line of what remains after the looked-up values have been erased
-   begins with a keyword of the schema -- so a misspelt keyword, or one that the context does not look up, on a line
-   of its own is refused for every configuration and every schema *)
+   begins with a keyword of the schema *)
 Theorem C09_unknown_keyword_rejected : forall strict schema conf vs, schema_ok schema ->
   parse_flat strict schema conf = PAccept vs ->
-  exists s, strip_values conf (registry_of strict schema conf) = Some s /\
-            forall l, In l (split_lines s) -> blank_line l \/ starts_with_keyword (schema_keywords schema) l.
+  forall l, In l (split_lines (strip_values conf (registry_of strict schema conf))) ->
+            blank_line l \/ starts_with_keyword (schema_keywords schema) l.
 Proof. exact unknown_keyword_rejected. Qed.
 Print Assumptions C09_unknown_keyword_rejected.
+
+(* the same on the ORIGINAL text: if conf = A ++ L ++ B is accepted, where L is a whole line none of whose characters,
+   nor the line ends around it, lies in the range of a looked-up value (line_untouched), then L is blank or begins
+   with a keyword of the schema.  So a misspelt keyword or a keyword of another context, on a line that no value
+   swallows, makes the parser refuse the configuration, for every configuration and every schema. *)
+Theorem C09_unknown_keyword_rejected_original : forall strict schema A L B vs, schema_ok schema ->
+  parse_flat strict schema (A ++ L ++ B) = PAccept vs ->
+  line_untouched (registry_of strict schema (A ++ L ++ B)) A L B ->
+  blank_line L \/ starts_with_keyword (schema_keywords schema) L.
+Proof. exact unknown_keyword_rejected_original. Qed.
+Print Assumptions C09_unknown_keyword_rejected_original.
+
+(* the range registered for a keyword (what strip_values erases) is exactly where the returned value sits in conf *)
+Theorem C09_value_range_exact : forall fuel conf key pos p data sp b e,
+  extract_value fuel conf key pos = KL_found p data sp (Reg b e) ->
+  substr conf b (e - b) = data /\ (e = b + length data)%nat /\ data <> [].
+Proof. exact extract_value_reg_exact. Qed.
+Print Assumptions C09_value_range_exact.
+
+(* nested blocks (colvar > component > atom group ...): acceptance of a level means (1) its own text, with values
+   and sub-blocks erased, has only blank lines and lines beginning with a keyword of THIS level, and (2) every
+   sub-block found is non-empty and accepted by the keywords of ITS level -- so, applying the theorem again to each
+   sub-block, an unknown keyword is refused at every depth *)
+Theorem C09_nested_unknown_keyword_rejected : forall strict items conf, nparse strict items conf = true ->
+  (forall l, In l (split_lines (strip_values conf (level_registry strict items conf))) ->
+             blank_line l \/ starts_with_keyword (level_keywords strict items conf) l) /\
+  (forall key sub d, In (NBlock key sub) items -> In d (ksv_all (key_string_values conf key)) ->
+             d <> [] /\ nparse strict sub d = true).
+Proof. exact nparse_accept_unfold. Qed.
+Print Assumptions C09_nested_unknown_keyword_rejected.
+
+(* the same on the original text of a level, and: the text handed to a sub-block is the piece of the parent's text
+   at one of the ranges the parent erases *)
+Theorem C09_nested_unknown_keyword_original :
+  (forall strict items A L B, nparse strict items (A ++ L ++ B) = true ->
+     line_untouched (level_registry strict items (A ++ L ++ B)) A L B ->
+     blank_line L \/ starts_with_keyword (map (fun it => to_lower (item_key it)) items) L) /\
+  (forall conf key, blocks_are_pieces conf (key_string_values conf key)).
+Proof. split; [exact nparse_unknown_keyword_original|exact blocks_are_pieces_of_parent]. Qed.
+Print Assumptions C09_nested_unknown_keyword_original.
 
 (* ---------------------------------------------------------------- values: strictness *)
 
@@ -182,6 +244,23 @@ Theorem C09_pinned_vector_rules_refuted :
                    vector_dyn extract_real data = VReject).
 Proof. exact pinned_vector_rules_refuted. Qed.
 Print Assumptions C09_pinned_vector_rules_refuted.
+
+(* a keyword looked up with parse_required (KReq) that is absent makes the configuration refused:
+   "a missing required value is rejected" for the keywords the client marks as required *)
+Theorem C09_required_keyword_present : forall strict schema conf vs key k,
+  In (key, KReq k) schema -> parse_flat strict schema conf = PAccept vs ->
+  ksv_found (key_string_values conf key) = true.
+Proof. exact required_keyword_present. Qed.
+Print Assumptions C09_required_keyword_present.
+
+(* 3-vectors "( x , y , z )", quaternions and vector values: accepted iff the text is one parenthesised tuple of n
+   numbers (read by extract_tuple: '(' number {',' number} ')' with optional white space) and nothing but white
+   space follows; the numbers themselves are literals by C09_scalar_value_strict's scanner *)
+Theorem C09_tuple_value_strict : forall n data v,
+  scalar_value (extract_tuple n) data = SAccept v <->
+  exists rest, skip_space data <> [] /\ extract_tuple n (skip_space data) = ExtOk v rest /\ all_space rest.
+Proof. exact tuple_value_strict. Qed.
+Print Assumptions C09_tuple_value_strict.
 
 (* ---------------------------------------------------------------- examples: the premises are satisfiable *)
 
